@@ -11,6 +11,7 @@ class Tree:
     def __init__(self):
         self.dirs = {""}
         self.files = {}        # rel path -> text
+        self.links = set()     # rel paths (keys of files) that are written as symbolic links to regular files kept elsewhere
 
     def subdirs(self, d):
         return sorted(x for x in self.dirs if x != "" and os.path.dirname(x) == d)
@@ -21,8 +22,21 @@ class Tree:
     def write(self, root):
         for d in sorted(self.dirs):
             os.makedirs(os.path.join(root, d), exist_ok=True)
-        for f, t in self.files.items():
-            with open(os.path.join(root, f), "w", encoding="utf-8", newline="") as fh:
+        store = os.path.join(os.path.dirname(root), "link_targets_of_" + os.path.basename(root))
+        for n_, (f, t) in enumerate(sorted(self.files.items())):
+            dest = os.path.join(root, f)
+            if f in self.links:
+                os.makedirs(store, exist_ok=True)
+                real = os.path.join(store, f"t{n_}_" + os.path.basename(f))
+                with open(real, "w", encoding="utf-8", newline="") as fh:
+                    fh.write(t)
+                if os.path.lexists(dest):
+                    os.remove(dest)
+                os.symlink(real, dest)
+                continue
+            if os.path.islink(dest):
+                os.remove(dest)
+            with open(dest, "w", encoding="utf-8", newline="") as fh:
                 fh.write(t)
 
     def shape(self):
@@ -41,7 +55,7 @@ def cmake_text(rel, rng=None, rich=False):
 
 
 def gen_tree(rng, max_depth=4, p_sub=0.6, mixed_case=True, noncmake=True, rich=False, ensure_top=True, case_twins=False,
-             index_module=False):
+             index_module=False, symlinks=False):
     t = Tree()
     twins = {"a": "A", "b": "B", "top": "Top", "m": "M", "util": "Util", "sub": "Sub", "aa": "AA", "core": "Core", "zz": "ZZ"}
 
@@ -76,6 +90,13 @@ def gen_tree(rng, max_depth=4, p_sub=0.6, mixed_case=True, noncmake=True, rich=F
                     t.dirs.add(sd2)
                     fill(sd2, depth + 1)
     fill("", 0)
+    if symlinks:
+        # in some sub-directories every CMake file is a symbolic link to a regular file stored elsewhere
+        for d in sorted(x for x in t.dirs if x):
+            if rng.random() < 0.3:
+                for f in t.files_of(d):
+                    if f.lower().endswith(".cmake"):
+                        t.links.add(os.path.join(d, f))
     if index_module:
         # a module that is itself called index.cmake: its page and the directory's index.rst compete for one file name
         d = rng.choice(sorted(t.dirs))
